@@ -367,6 +367,23 @@ def c05_stored(R):
                     if "isinstance" in tests and "Base" in tests and ast.unparse(g.elt) == ast.unparse(g.generators[0].target):
                         B = nm
     R.need(B is not None, f"Base.__new__: the tuple of AST children of `{A}` not found")
+    # ... and they are *all* the AST children, on every path: the definition is the filter itself, not one arm of a choice
+    for d in defs.get(B, []):
+        v = d.value
+        whole = isinstance(v, (ast.GeneratorExp, ast.ListComp)) or (
+            isinstance(v, ast.Call) and dotted(v.func) in ("tuple", "list", "frozenset") and len(v.args) == 1 and isinstance(v.args[0], (ast.GeneratorExp, ast.ListComp))
+        )
+        R.check(
+            whole and not guards.holds(d, stop=fn),
+            m,
+            d,
+            "the AST children are all AST arguments, unconditionally",
+            f"Base.__new__ computes the AST children as `{norm(v)[:100]}`" + (f" under {guards.holds(d, stop=fn)}" if guards.holds(d, stop=fn) else "")
+            + ": on some path children are left out, and depth / errored / the annotation summaries are derived from them - the "
+            "unpickler passes symbolic and variables for every node, an inner node rebuilt from a pickle then reported depth 1 and "
+            "leaf_asts() / replace() stopped at it",
+            construct="Base.__new__: AST children computed conditionally",
+        )
     for nm, role in ((A, "stored args"), (B, "AST children")):
         R.check(len(defs.get(nm, [])) == 1, m, fn, f"{role} have a single definition", f"the {role} (`{nm}`) are assigned {len(defs.get(nm, []))} times",
                 construct=f"Base.__new__: {role} single definition")
